@@ -23,6 +23,7 @@ var (
 func checkC10(c *chk.Ctx) {
 	h := newH(c)
 	c.Decided = []string{
+		"R10j opening a read-write segment wipes the mapped file behind the entries its recovery accepted: a discarded damaged tail cannot line up again behind a later entry and come back after the next restart",
 		"R10i an offset is only reported synced when a flush that started after it was appended has completed (sync-round rules shared with C01/C03/C04/C08/C09)",
 		"R10h the list of segment base offsets read from the WAL directory is sorted numerically before it is used positionally (first / last segment at recovery): directory order is by file name, not by offset",
 		"R10a lengths read from the file are range-checked in an overflow-safe form before any sum containing them is compared",
@@ -45,6 +46,7 @@ func checkC10(c *chk.Ctx) {
 	ruleTruncateClearsTail(h, "R10g")
 	ruleSegmentListSorted(h, "R10h")
 	ruleSyncCompletionsCovered(h, "R10i")
+	ruleR10j(h)
 }
 
 func codecImplMethods(h *H, rule, method string) []*ssa.Function {
@@ -674,5 +676,106 @@ func ruleSegmentListSorted(h *H, rule string) {
 	}
 	if n == 0 {
 		h.Anchor(rule, "the function of server/wal building a []int64 from os.ReadDir")
+	}
+}
+
+// ruleR10j: recovery of the read-write segment discards a damaged uncommitted entry and
+// everything behind it by ending the scan there. A record is validated only against the
+// previous-CRC stored in its own header, so the discarded bytes have to be wiped: once an
+// entry of the same size has been appended over the damaged one, the stale records behind
+// it would be accepted by the next recovery as entries of the log.
+func ruleR10j(h *H) {
+	const rule = "R10j"
+	h.Rule(rule, "K1", "the function that opens a read-write segment clears the mapped file from the write position returned by Codec.RecoverIndex onwards (clear() or a zero-store loop over a slice that starts there) before it returns the segment", 1)
+	recover := ir.Callee{Pkg: "server/wal/codec", Recv: "Codec", Name: "RecoverIndex"}
+	n := 0
+	for _, fn := range h.P.Funcs {
+		if ir.RelPkg(ir.PkgPathOf(fn)) != "server/wal" || fn.Blocks == nil {
+			continue
+		}
+		recs := h.P.CallsIn(fn, recover)
+		if len(recs) == 0 {
+			continue
+		}
+		// only where the result becomes a read-write segment (the read-only path rebuilds an index file)
+		rw := false
+		for i := 0; i < fn.Signature.Results().Len(); i++ {
+			if ir.TypeIs(fn.Signature.Results().At(i).Type(), "server/wal", "ReadWriteSegment") {
+				rw = true
+			}
+		}
+		if !rw {
+			continue
+		}
+		h.Fn(ir.FuncName(fn))
+		for _, rec := range recs {
+			n++
+			// the write position: result #2 of RecoverIndex, possibly stored into the segment first
+			fromWritePos := func(v ssa.Value) bool {
+				return ir.DependsOn(v, func(x ssa.Value) bool {
+					ex, ok := x.(*ssa.Extract)
+					if ok && ex.Tuple == rec.Value() && ex.Index == 2 {
+						return true
+					}
+					// read back from the field it was stored into
+					if r, isF := ir.FieldLoadOf(x); isF && r.Struct != nil {
+						for _, w := range h.P.FieldWrites("server/wal", r.Struct.Obj().Name(), r.Field) {
+							if w.Fn == fn && w.Val != nil {
+								if e2, isE := ir.Canon(w.Val).(*ssa.Extract); isE && e2.Tuple == rec.Value() && e2.Index == 2 {
+									return true
+								}
+							}
+						}
+					}
+					return false
+				})
+			}
+			var wipe ssa.Instruction
+			ir.Instrs(fn, func(in ssa.Instruction) {
+				if wipe != nil || !ir.Dominates(rec, in) {
+					return
+				}
+				var target ssa.Value
+				if c := ir.CallOf(in); c != nil {
+					if b, isB := c.Value.(*ssa.Builtin); isB && b.Name() == "clear" && len(c.Args) == 1 {
+						target = c.Args[0]
+					}
+				}
+				if st, isSt := in.(*ssa.Store); isSt {
+					if k, isK := st.Val.(*ssa.Const); isK && k.Value != nil && k.Int64() == 0 {
+						if ia, isIA := st.Addr.(*ssa.IndexAddr); isIA {
+							target = ia.X
+						}
+					}
+				}
+				if target == nil {
+					return
+				}
+				// the wiped slice starts at the recovered write position
+				if ir.DependsOn(target, func(x ssa.Value) bool {
+					sl, ok := x.(*ssa.Slice)
+					return ok && sl.Low != nil && sl.High == nil && fromWritePos(sl.Low)
+				}) {
+					wipe = in
+				}
+			})
+			ok := wipe != nil
+			if ok {
+				// and it is on the way to the successful return
+				reaches := false
+				ir.Instrs(fn, func(x ssa.Instruction) {
+					if ret, isRet := x.(*ssa.Return); isRet && mayReturnNilError(ret) {
+						if r, _ := ir.Reach(ir.Search{From: wipe}, ir.Is(x)); r {
+							reaches = true
+						}
+					}
+				})
+				ok = reaches
+			}
+			h.Verdict(ok, rule, "tail behind the recovered entries in "+ir.FuncName(fn), h.pos(rec), "wiped from the recovered write position to the end of the mapped file", "the bytes behind the entries that recovery accepted stay in the file: a damaged uncommitted entry is discarded by ending the scan, but once an entry of the same size is appended over it the stale records behind it pass validation again and the next recovery brings discarded (possibly superseded) entries back")
+		}
+	}
+	if n == 0 {
+		h.Anchor(rule, "the Codec.RecoverIndex call of the function opening a read-write segment")
 	}
 }
